@@ -23,7 +23,8 @@ Record cond := { c_err : err; c_state : pstate; c_pid0 : bool }.
 (* outcome classes.  The three psutil exceptions are raised as Cls(pid, name) with the
    Process object's pid and cached name; RRaw = the OSError instance raised by the native
    call leaves the method unchanged; RVal = the method returns normally. *)
-Inductive res := RNoSuch | RZombie | RDenied | RRaw | RVal.
+Inductive res := RNoSuch | RZombie | RDenied | RRaw | RVal
+             | RTimeout.     (* TimeoutExpired(seconds, pid, name): wait() only *)
 
 (* CPython: OSError(errno, ...) is constructed as the subclass PEP 3151 assigns *)
 Inductive pycls := CLookup | CNotFound | CPerm | COSError.
@@ -155,6 +156,48 @@ Definition inner (p : plat) (meth site : string) (c : cond) : option res :=
 Definition method_outcome (p : plat) (meth site : string) (c : cond) : res :=
   match inner p meth site c with Some r => r | None => wrap p c end.
 
+(* ------------------------------------------------------------------ two native calls in one method *)
+(* (first call fails with e1, the second route's call fails with e2); the pairs the code has:
+   Windows "fast call denied -> proc_info", Windows cmdline "PEB denied -> non-PEB query",
+   Solaris uids/gids "cred denied -> psinfo". *)
+Definition g_win_cmdline_pair (meth site1 site2 : string) : bool :=
+  seq meth "cmdline" && seq site1 "proc_cmdline[peb]" && seq site2 "proc_cmdline[nopeb]".
+Definition pair_outcome (p : plat) (meth site1 site2 : string) (e1 e2 : err) (s : pstate) (z : bool) : res :=
+  let c1 := Build_cond e1 s z in
+  let c2 := Build_cond e2 s z in
+  match p with
+  | Windows =>
+      if g_win_cmdline_pair meth site1 site2 then
+        if is_permission_err e1 then (if is_partial e2 then RDenied else wrap Windows c2)   (* second query inside the retry decorator *)
+        else method_outcome p meth "proc_cmdline" c1
+      else if g_win_fallback meth site1 && seq site2 "proc_info" then
+        if is_permission_err e1 then wrap Windows c2 else method_outcome p meth site1 c1
+      else method_outcome p meth site1 c1
+  | SunOS =>
+      if g_sunos_cred meth site1 && seq site2 "proc_basic_info" then
+        match wrap SunOS c1 with RDenied => wrap SunOS c2 | r => r end
+      else method_outcome p meth site1 c1
+  | _ => method_outcome p meth site1 c1
+  end.
+
+(* retry_error_partial_copy: the call fails k times with ERROR_PARTIAL_COPY, then succeeds
+   (then_ = None) or fails with another error; 33 attempts are made *)
+Definition retry_outcome (meth site : string) (k : Z) (then_ : option err) (s : pstate) (z : bool) : res :=
+  if g_win_partial meth then
+    if 33 <=? k then RDenied
+    else match then_ with None => RVal | Some e => method_outcome Windows meth site (Build_cond e s z) end
+  else method_outcome Windows meth site (Build_cond WPARTIAL s z).
+
+(* wait(timeout=0) with no failing call.  POSIX: _psposix.wait_pid -- waitpid(WNOHANG) says
+   "still running" -> TimeoutExpired, ECHILD -> poll pid_exists.  Windows: proc_wait returned
+   (or raised its own TimeoutExpired / TimeoutAbandoned), then poll pid_exists. *)
+Inductive wscen := WPlain | WNativeTimeout | WAbandoned.
+Definition wait_outcome (p : plat) (w : wscen) (s : pstate) : res :=
+  match p, w with
+  | Windows, WNativeTimeout => RTimeout
+  | _, _ => if listed s then RTimeout else RVal
+  end.
+
 (* the code before fix a2d103c: _pswindows.Process.ppid() carried no decorator, so whatever
    ppid_map() raised left the method unchanged (kept only to state what the fix repaired) *)
 Definition method_outcome_pre_a2d103c (p : plat) (meth site : string) (c : cond) : res :=
@@ -223,6 +266,12 @@ Record lblock := { l_plat : plat; l_meth : string; l_site : string; l_outs : lis
 Record srow := { s_plat : plat; s_codes : list (string * string) }.
 (* outcomes of ESRCH at a native call for a PID listed with native status code sb_code, pid 7 and pid 0 *)
 Record sblock := { sb_plat : plat; sb_meth : string; sb_site : string; sb_code : string; sb_outs : list gout }.
+(* two-fault outcomes of (platform, method, first call, second call), in the order of Spec.pair_conds *)
+Record pblock := { pb_plat : plat; pb_meth : string; pb_site1 : string; pb_site2 : string; pb_outs : list gout }.
+(* retry_error_partial_copy probes (Windows, pid 7, alive) *)
+Record rrow := { rr_meth : string; rr_site : string; rr_k : Z; rr_then : option err; rr_out : gout }.
+(* wait(0) without a failing call *)
+Record wrow := { wr_plat : plat; wr_scen : wscen; wr_state : pstate; wr_out : gout }.
 Record smap := { m_plat : plat; m_name : string; m_slots : list (string * Z) }.
 Record names := { nm_plat : plat; nm_all : list string; nm_dir : list string; nm_methods : list string }.
 
